@@ -60,11 +60,29 @@ Section C01.
       forall e, e dout < plen tp N ->
         get res e = spec_op f r cf (column t din e) from tp (Z.of_nat (e dout)).
   Proof. exact (step_spec o ofZ). Qed.
+  (* Several axes: the call is the single-axis steps applied one after another in the
+     given order (any split of the axis list), followed only by the transposition that
+     restores the order of the dimensions. *)
+  Theorem C01_sequence : forall tbl (g : grid A) dssizes c orig axes1 axes2 (t : tensor A),
+    steps o ofZ tbl g dssizes c orig t (axes1 ++ axes2) =
+    match steps o ofZ tbl g dssizes c orig t axes1 with
+    | Ok t' => steps o ofZ tbl g dssizes c orig t' axes2
+    | Err e => Err e
+    end.
+  Proof. exact (steps_app o ofZ). Qed.
+
+  Theorem C01_call : forall tbl (g : grid A) dssizes c (t : tensor A) r,
+    grid_op o ofZ tbl g dssizes c t = Ok r ->
+    exists u, steps o ofZ tbl g dssizes c (dnames (dims t)) t (k_axes c) = Ok u /\
+              restore_order g (dnames (dims t)) (k_axes c) u = Ok r.
+  Proof. exact (grid_op_sequence o ofZ). Qed.
 End C01.
 
 Print Assumptions C01_table.
 Print Assumptions C01_stencil_1d.
 Print Assumptions C01_stencil.
+Print Assumptions C01_sequence.
+Print Assumptions C01_call.
 
 (* Non-vacuity: interp from center to outer, extend rule, on [1;5;2] (N = 3): the
    geometric widths are (1,1) and the four outer values are (1+1)/2, (1+5)/2, (5+2)/2,
